@@ -66,7 +66,45 @@ def _conjuncts(t):
     return [t]
 
 
+_FLAG_CACHE = {}      # term id -> (term kept alive, has quantifier, has regex)
+
+
+def _flags(t):
+    i = t.get_id()
+    ent = _FLAG_CACHE.get(i)
+    if ent is None or not ent[0].eq(t):
+        if len(_FLAG_CACHE) > 200000:
+            _FLAG_CACHE.clear()
+        ent = (t, _has_quantifier_uncached(t), _has_regex_uncached(t))
+        _FLAG_CACHE[i] = ent
+    return ent
+
+
 def _has_quantifier(t):
+    return _flags(t)[1]
+
+
+def _has_regex(t):
+    return _flags(t)[2]
+
+
+def _has_regex_uncached(t):
+    seen = set()
+    todo = [t]
+    while todo:
+        x = todo.pop()
+        i = x.get_id()
+        if i in seen:
+            continue
+        seen.add(i)
+        if z3.is_app(x) and x.decl().kind() == z3.Z3_OP_SEQ_IN_RE:
+            return True
+        if not z3.is_quantifier(x):
+            todo.extend(x.children())
+    return False
+
+
+def _has_quantifier_uncached(t):
     seen = set()
     todo = [t]
     while todo:
@@ -94,9 +132,25 @@ def _arith_ops():
     return _ARITH_OPS
 
 
+_LA_MEMO = {}     # term id -> (term kept alive, is_length_arith)
+_ABS_MEMO = {}    # term id -> (term kept alive, length abstraction or None, side facts)
+
+
 def is_length_arith(t, _memo=None):
     """t is built from integer arithmetic, propositional structure, integer/boolean constants and
     lengths of strings only (the strings themselves are not inspected)."""
+    i = t.get_id()
+    ent = _LA_MEMO.get(i)
+    if ent is not None:
+        return ent[1]
+    r = _is_length_arith(t)
+    if len(_LA_MEMO) > 400000:
+        _LA_MEMO.clear()
+    _LA_MEMO[i] = (t, r)
+    return r
+
+
+def _is_length_arith(t, _memo=None):
     if _memo is None:
         _memo = {}
     i = t.get_id()
@@ -117,8 +171,72 @@ def is_length_arith(t, _memo=None):
             # arguments are not inspected, the solver keeps congruence for syntactically equal arguments)
             r = True
         elif k in _arith_ops():
-            r = all(is_length_arith(c, _memo) for c in t.children())
+            r = all(is_length_arith(c) for c in t.children())
     _memo[i] = r
+    return r
+
+
+_LIA = {}        # term id -> (term kept alive, pure-LIA image, side facts)
+
+
+def _len_term(s, side):
+    """the length of the string term s as a term of pure linear integer arithmetic: literals are measured,
+    concatenations summed, every other string term gets an integer constant (>= 0)"""
+    i = s.get_id()
+    ent = _LIA.get(i)
+    if ent is not None:
+        side.extend(ent[2])
+        return ent[1]
+    mine = []
+    if z3.is_string_value(s):
+        r = z3.simplify(z3.Length(s))
+        if not z3.is_int_value(r):
+            r = None
+    elif z3.is_app(s) and s.decl().kind() == z3.Z3_OP_SEQ_CONCAT:
+        r = z3.Sum([_len_term(c, mine) for c in s.children()])
+    elif z3.is_app(s) and s.decl().kind() == z3.Z3_OP_ITE:
+        c = length_abstraction(s.arg(0), mine)
+        r = z3.If(c, _len_term(s.arg(1), mine), _len_term(s.arg(2), mine)) if c is not None else None
+    else:
+        r = None
+    if r is None:
+        r = z3.Int('len!%d' % i)
+        mine.append(r >= 0)
+    if len(_LIA) > 400000:
+        _LIA.clear()
+    _LIA[i] = (s, r, tuple(mine))
+    side.extend(mine)
+    return r
+
+
+def _lia(t, side):
+    """A length-arithmetic term (is_length_arith) without string-sorted subterms: Length(s) becomes the integer
+    term _len_term(s), applications of uninterpreted functions become constants (one per application).  The
+    length solver then works in pure linear arithmetic (no sequence theory, no arrays): same answers on
+    lengths, much faster."""
+    i = t.get_id()
+    ent = _LIA.get(i)
+    if ent is not None:
+        side.extend(ent[2])
+        return ent[1]
+    mine = []
+    k = t.decl().kind()
+    if k == z3.Z3_OP_SEQ_LENGTH:
+        a = t.arg(0)
+        r = _len_term(a, mine) if z3.is_string(a) else z3.Int('opq!%d' % i)
+    elif k == z3.Z3_OP_UNINTERPRETED:
+        if t.num_args() == 0:
+            r = t
+        else:
+            r = z3.Int('opq!%d' % i) if z3.is_int(t) else z3.Bool('opq!%d' % i)
+    elif t.num_args() == 0:
+        r = t
+    else:
+        r = t.decl()(*[_lia(c, mine) for c in t.children()])
+    if len(_LIA) > 400000:
+        _LIA.clear()
+    _LIA[i] = (t, r, tuple(mine))
+    side.extend(mine)
     return r
 
 
@@ -138,11 +256,11 @@ def _atom(t):
     if z3.is_app(t):
         k = t.decl().kind()
         if k == z3.Z3_OP_EQ and z3.is_string(t.arg(0)):
-            side.append(z3.Implies(b, z3.Length(t.arg(0)) == z3.Length(t.arg(1))))
+            side.append(z3.Implies(b, _len_term(t.arg(0), side) == _len_term(t.arg(1), side)))
         elif k in (z3.Z3_OP_SEQ_PREFIX, z3.Z3_OP_SEQ_SUFFIX):
-            side.append(z3.Implies(b, z3.Length(t.arg(0)) <= z3.Length(t.arg(1))))
+            side.append(z3.Implies(b, _len_term(t.arg(0), side) <= _len_term(t.arg(1), side)))
         elif k == z3.Z3_OP_SEQ_CONTAINS:
-            side.append(z3.Implies(b, z3.Length(t.arg(1)) <= z3.Length(t.arg(0))))
+            side.append(z3.Implies(b, _len_term(t.arg(1), side) <= _len_term(t.arg(0), side)))
     return b, side
 
 
@@ -154,8 +272,22 @@ def length_abstraction(t, side=None):
     what the abstraction entails is entailed."""
     if side is None:
         side = []
+    ent = _ABS_MEMO.get(t.get_id())
+    if ent is not None:
+        side.extend(ent[2])
+        return ent[1]
+    mine = []
+    r = _length_abstraction(t, mine)
+    if len(_ABS_MEMO) > 400000:
+        _ABS_MEMO.clear()
+    _ABS_MEMO[t.get_id()] = (t, r, tuple(mine))
+    side.extend(mine)
+    return r
+
+
+def _length_abstraction(t, side):
     if is_length_arith(t):
-        return t
+        return _lia(t, side)
     if z3.is_quantifier(t) or not z3.is_app(t) or not z3.is_bool(t):
         return None
     k = t.decl().kind()
@@ -188,10 +320,12 @@ class PathState:
         self.prefix = list(prefix)
         self.decisions = []
         self.pending = []          # alternative prefixes discovered on this run
+        self.on_fact = None        # hook(term): called when a fact is added to the context (equality learning)
         self.solver = z3.Solver()
         self.solver.set('timeout', INCREMENTAL_TIMEOUT_MS)
         self._incremental_lost = 0 # number of `unknown` answers of the incremental solver on this path
         self._fresh_timeout = FEAS_TIMEOUT_MS
+        self._len_memo = {}        # must_hold_lengths: (term id, scope ids) -> (len(pc), answer, term kept alive)
         self.established = {}      # ids of terms that are conjuncts of the (unscoped) path condition
         self._not_established = {} # term id -> len(pc) when it was last found not to be entailed
         self.len_solver = z3.Solver()   # integers and string lengths only (abstraction of pc): boundary questions
@@ -255,6 +389,8 @@ class PathState:
             return
         t = cond.t if isinstance(cond, SBool) else cond
         self._add(self._scoped(t))
+        if self.on_fact is not None:
+            self.on_fact(t)
 
     def assume_unscoped(self, cond):
         """A fact about a symbolic object itself (shape constraint, invariant): the object is cached and
@@ -270,16 +406,34 @@ class PathState:
         # The feasibility solver only sees quantifier-free facts: satisfiability of quantified
         # (string) formulas is where solvers get lost; dropping facts there only over-approximates
         # the set of explored paths, the obligations are always proved from the full `pc`.
+        # ... nor regular-expression membership facts: with them in the context the solver has been seen to
+        # run far beyond its timeout on unrelated questions.
         for c in _conjuncts(t):
             self.established[c.get_id()] = c
             if not _has_quantifier(c):
-                self.solver.add(c)
+                if not _has_regex(c):
+                    self.solver.add(c)
                 side = []
                 la = length_abstraction(c, side)
                 if la is not None:
                     self.len_solver.add(la)
                 for f in side:
                     self.len_solver.add(f)
+
+    def proof_step(self, cond):
+        """A step of a proof in progress has just been recorded as an obligation: the rest of that proof may
+        rely on it.  It becomes a temporary hypothesis (a scope) that the caller removes when the proof of the
+        clause is complete (loops._call_pred), so that it never influences path feasibility, the vacuity guard or
+        other clauses -- if the step is in fact false, only its own obligation is affected."""
+        if isinstance(cond, bool):
+            t = z3.BoolVal(cond)
+        else:
+            t = cond.t if isinstance(cond, SBool) else cond
+        if z3.is_true(t):
+            return
+        self.scopes.append(t)
+        if self.on_fact is not None:
+            self.on_fact(t)
 
     def is_established(self, t):
         """t (the condition of a merge scope that has been left) is known to hold on this path: it is a
@@ -295,7 +449,14 @@ class PathState:
         if len(cs) > 1 and all(self.is_established(c) for c in cs):
             self.established[i] = t
             return True
-        if not _has_quantifier(t) and self.must_hold(t):
+        if self.ghost.get('__align__'):
+            # (string alignment on, pyvc.strings: many more pieces are shared and this question is asked very often:
+            # decided on the length abstraction only, never by the string solver -- "not established" is always a
+            # sound answer, it only means a fresh decomposition instead of a shared one)
+            ok = not _has_quantifier(t) and is_length_arith(t) and self.must_hold_lengths(t)
+        else:
+            ok = not _has_quantifier(t) and self.must_hold(t)
+        if ok:
             self.established[i] = t
             return True
         self._not_established[i] = len(self.pc)
@@ -305,6 +466,7 @@ class PathState:
         """Replace the path condition by a subset of its conjuncts (forgetting facts is sound: obligations
         are proved from what remains)."""
         self.pc[:] = list(keep)
+        self._len_memo = {}
         self.solver = z3.Solver()
         self.solver.set('timeout', INCREMENTAL_TIMEOUT_MS)
         self.len_solver = z3.Solver()
@@ -312,7 +474,8 @@ class PathState:
         for t in self.pc:
             for c in _conjuncts(t):
                 if not _has_quantifier(c):
-                    self.solver.add(c)
+                    if not _has_regex(c):
+                        self.solver.add(c)
                     side = []
                     la = length_abstraction(c, side)
                     if la is not None:
@@ -325,7 +488,7 @@ class PathState:
         self.stats['feasibility_queries'] = self.stats.get('feasibility_queries', 0) + 1
         import time as _t
         t0 = _t.time()
-        assumptions = [x for x in self.scopes if not _has_quantifier(x)] + list(extra)
+        assumptions = [x for x in self.scopes if not _has_quantifier(x) and not _has_regex(x)] + list(extra)
         if self._incremental_lost < 3:
             if timeout_ms is not None:
                 self.solver.set('timeout', timeout_ms)
@@ -386,6 +549,12 @@ class PathState:
         return d == 'cu'
 
     def is_feasible(self, t):
+        if is_length_arith(t) and self._len_check(t) == z3.unsat:
+            return False
+        if _has_regex(t):
+            # (never asked to the solver inside a big context: it may not come back; explore both sides)
+            self.unknown_feasibility += 1
+            return True
         r = self.check(t)
         if r == z3.unknown:
             self.unknown_feasibility += 1
@@ -404,7 +573,8 @@ class PathState:
             if la is not None:
                 sc.append(la)
         self.stats['length_queries'] = self.stats.get('length_queries', 0) + 1
-        return self.len_solver.check(*(sc + [t]))
+        la = length_abstraction(t, sc)
+        return self.len_solver.check(*(sc + [la if la is not None else t]))
 
     def _fork_by_lengths(self, t):
         """A branch condition about integers / string lengths that the length abstraction of the path
@@ -426,13 +596,22 @@ class PathState:
         if not is_length_arith(t):
             return self.must_hold(t)
         self.stats['length_queries'] = self.stats.get('length_queries', 0) + 1
+        # (memo: the context only grows -- except in reset_pc, which clears the memo -- so what was entailed
+        # under the same scopes still is; what was not is asked again only after new facts)
+        key = (t.get_id(), tuple(x.get_id() for x in self.scopes))
+        ent = self._len_memo.get(key)
+        n_facts = len(self.pc)
+        if ent is not None and (ent[1] or ent[0] == n_facts):
+            return ent[1]
         sc = []
         for x in self.scopes:
             la = length_abstraction(x, sc)
             if la is not None:
                 sc.append(la)
-        r = self.len_solver.check(*(sc + [z3.Not(t)]))
-        return r == z3.unsat
+        goal = _lia(t, sc)
+        r = self.len_solver.check(*(sc + [z3.Not(goal)])) == z3.unsat
+        self._len_memo[key] = (n_facts, r, t)
+        return r
 
     # ---- decisions --------------------------------------------------------------
     def _next_decision(self):
@@ -495,7 +674,10 @@ class PathState:
             self.decisions.append(LOCAL)
             return self._local_fork(t)
         self.decisions.append(d)
-        self._add(self._scoped(t if d else z3.Not(t)))
+        fact = t if d else (t.arg(0) if z3.is_not(t) else z3.Not(t))
+        self._add(self._scoped(fact))
+        if self.on_fact is not None:
+            self.on_fact(fact)
         return d
 
     def _local_fork(self, t):
@@ -571,6 +753,8 @@ class PathState:
         elif self._fork_by_lengths(t) is not None:
             r = 'T' if self._fork_by_lengths(t)[0] else 'N'
             self._record_known(t, r == 'T')
+        elif self.ghost.get('__align__'):
+            r = 'U'      # (string alignment on: operands of and / or are only decided by lengths, see is_established)
         elif self.must_hold(t, SITE_TIMEOUT_MS):
             r = 'T'
             self._record_known(t, True)
